@@ -18,6 +18,7 @@ MODULES = {
     "C19": "harness.c19_bandits",
     "C12": "harness.c12_vecenv",
     "C13": "harness.c13_faults",
+    "C20": "harness.c20_accounting",
 }
 
 TECH = "symbolic execution of the real Python functions on z3-backed proxies (re-execution path exploration); each obligation decided per path by z3 as pc ∧ assumptions ∧ ¬obligation; sat models replayed on the real code"
@@ -79,6 +80,11 @@ CLAIMED = {
         "level_note": NOTE + "; true concurrency, killed processes, wall-clock bounds and OS-level liveness (a worker that never answers) are outside",
         "technique": TECH,
     },
+    "C20": {
+        "level_text": "PARTIAL (accounting only): bounded symbolic verification of the whole of train_on_policy, train_multi_agent_on_policy and train_off_policy (no tournament / mutation / checkpoint / logging) with a scripted vector environment, duck agents and a duck memory: for all max_steps in [1,8], evo_steps in [1,4], learn_step in [1,3] at 1-3 sub-environments and 2-3 agents: the returned population is the one given (size, order, distinct indices), every agent's step counter equals the environment steps it actually took and the documented steps per generation, training stops in the FIRST generation in which the documented budget (per agent; summed over the population for the multi-agent loop) is met, and every agent is evaluated exactly once per generation (one fitness entry)",
+        "level_note": NOTE + "; NOT decided: that learn() accepts what the real samplers return for every algorithm/memory combination, evaluation/tournament/mutation/checkpointing with real agents, train_offline, train_bandits, the off-policy multi-agent loop; train_off_policy with evo_steps < num_envs never terminates and is excluded by assumption",
+        "technique": TECH,
+    },
     "C14": {
         "level_text": "bounded symbolic verification of the real action selection of DQN (get_action/_get_action), CQN, RainbowDQN (numpy masked arg-max path), DDPG, TD3 (noise + clip), PPO (evaluation-mode clip / squashed policy), MADDPG / MATD3 (exploration clamp with per-dimension bounds, masked arg-max of discrete actions) and DeterministicActor.rescale_action on real agents with stub policy networks: for all network outputs (ties included), masks with >= 1 legal action, epsilon in [0,1], every uniform draw in [0,1) and all exploration noise at batch<=2(3), actions<=3(4), 2-3 action dims with asymmetric per-dimension bounds: the action has the batch shape, is a valid index whose mask bit is 1, is a best allowed action when exploration is off (epsilon 0 / training False), lies inside [low,high] for the continuous learners and evaluation-mode PPO, and rescale_action is the affine image of the activation range",
         "level_note": NOTE + "; that a real network's output activation delivers the assumed range, IPPO action selection, env-defined actions, the bandits' masked arg-max (C19) and MultiDiscrete/MultiBinary sampling (C16) are outside this check",
@@ -110,7 +116,6 @@ NOT_APPLICABLE = {
     "C01": "aliasing/independence of live nn.Module + optimizer object graphs over learn/mutate/clone histories and behavioural equality after real forward/backward passes: no encoding in which a solver verdict is the deciding step (DESIGN.md §5 C01)",
     "C02": "pointer identity between optimizers and live parameters, target/critic architecture after Mutations.mutation on real module graphs: needs real layer construction and optimizer steps, nothing symbolic survives; the encodable slivers are claimed under C03/C04/C06 (DESIGN.md §5 C02)",
     "C07": "torch.save/dill serialisation, file I/O and reconstruction of real module graphs; no symbolic variable survives a pickle round-trip (DESIGN.md §5 C07)",
-    "C20": "whole-program training runs with real environments, agents and files; trip counts are the inputs; after stubbing what cannot be symbolic nothing symbolic of interest is left (DESIGN.md §5 C20)",
 }
 
 # designed in DESIGN.md §5 but the check is not built/registered yet (moves to CLAIMED when it lands)
